@@ -377,15 +377,18 @@ class RemoveFront(MaskMixin, CartesianProductStrategy):
     merge: when the class tracks the same letter twice, the children track it once
            (two parent statistics mapped onto one child statistic, in a product)."""
 
-    def __init__(self, mask=None, lazy=False, split=False, merge=False):
+    def __init__(self, mask=None, lazy=False, split=False, merge=False, split3=False):
         super().__init__(ignore_parent=True, inferrable=False, possibly_empty=False, workable=True)
         self.mask = mask
         self.lazy = lazy
         self.split = split
         self.merge = merge
+        # split3: a removed front of length >= 2 is split into its first letter and the remainder:
+        # {a} x {u} x W(p[s:]) - a product of three different classes with three different shifts
+        self.split3 = split3
 
     def _args_repr(self):
-        return ",".join(x for x, on in (("split", self.split), ("merge", self.merge)) if on)
+        return ",".join(x for x, on in (("split", self.split), ("merge", self.merge), ("split3", self.split3)) if on)
 
     @staticmethod
     def safe_index(c):
@@ -414,6 +417,12 @@ class RemoveFront(MaskMixin, CartesianProductStrategy):
         if self.split and s % 2 == 0 and front[: s // 2] == front[s // 2 :]:
             half = c.replace(prefix=front[: s // 2], just_prefix=True, tracked=tracked)
             return (half, half, rest)
+        if self.split3 and s >= 2:
+            return (
+                c.replace(prefix=front[:1], just_prefix=True, tracked=tracked),
+                c.replace(prefix=front[1:], just_prefix=True, tracked=tracked),
+                rest,
+            )
         return (c.replace(prefix=front, just_prefix=True, tracked=tracked), rest)
 
     def extra_parameters(self, comb_class, children=None):
@@ -443,11 +452,12 @@ class RemoveFront(MaskMixin, CartesianProductStrategy):
         d = self._base_json()
         d["split"] = self.split
         d["merge"] = self.merge
+        d["split3"] = self.split3
         return d
 
     @classmethod
     def from_dict(cls, d):
-        return cls(d.get("mask"), d.get("lazy", False), d.get("split", False), d.get("merge", False))
+        return cls(d.get("mask"), d.get("lazy", False), d.get("split", False), d.get("merge", False), d.get("split3", False))
 
 
 class SplitZeros(MaskMixin, CartesianProductStrategy):
@@ -1036,6 +1046,45 @@ class ExpandFactory(StrategyFactory):
         return cls(d["ds"], d["as_rules"], d["foreign"], d["dup"], d["mask"], d.get("foreign_first", False), d.get("with_remove_front", False))
 
 
+class AtomTwinFactory(StrategyFactory):
+    """Atom verification as a factory that yields ready-made verification rules: the rule of the class itself
+    when it is an atom and, for a non-atom, the rule of ANOTHER class - the atom of its prefix (a verification
+    rule whose parent is not the class the factory was applied to)."""
+
+    def __init__(self, foreign=True, foreign_first=False):
+        self.foreign = foreign
+        self.foreign_first = foreign_first
+
+    def strategies(self):
+        return [WordAtom()]
+
+    def __call__(self, comb_class):
+        CALL_LOG.append((repr(self), comb_class.key()))
+        if comb_class.marks > 1 or comb_class.is_empty():
+            return
+        st = WordAtom()
+        own = [st(comb_class)] if st.verified(comb_class) else []
+        twin = []
+        if self.foreign and not comb_class.just_prefix:
+            twin = [st(comb_class.replace(just_prefix=True, start_set=None))]
+        yield from (twin + own if self.foreign_first else own + twin)
+
+    def __repr__(self):
+        return f"AtomTwinFactory(foreign={self.foreign},ff={self.foreign_first})"
+
+    def __str__(self):
+        return repr(self)
+
+    def to_jsonable(self):
+        d = super().to_jsonable()
+        d.update(foreign=self.foreign, foreign_first=self.foreign_first)
+        return d
+
+    @classmethod
+    def from_dict(cls, d):
+        return cls(d.get("foreign", True), d.get("foreign_first", False))
+
+
 # ---------------------------------------------------------------------------
 # Specs (JSON) -> objects
 # ---------------------------------------------------------------------------
@@ -1044,7 +1093,7 @@ _STRATS = {
     "Expand": lambda s: Expand(s.get("d", 1), _mask(s), s.get("lazy", False), s.get("drop", False), s.get("atom_last", False)),
     "SplitZeros": lambda s: SplitZeros(_mask(s), s.get("lazy", False)),
     "ForgetMark": lambda s: ForgetMark(_mask(s), s.get("lazy", False)),
-    "RemoveFront": lambda s: RemoveFront(_mask(s), s.get("lazy", False), s.get("split", False), s.get("merge", False)),
+    "RemoveFront": lambda s: RemoveFront(_mask(s), s.get("lazy", False), s.get("split", False), s.get("merge", False), s.get("split3", False)),
     "ReducePatterns": lambda s: ReducePatterns(_mask(s), s.get("lazy", False), two_way=s.get("two_way", True), ignore_parent=s.get("ignore_parent", True), reversible=s.get("reversible", True), empty_first=s.get("empty_first", False)),
     "DropDeadStatistic": lambda s: DropDeadStatistic(_mask(s), s.get("lazy", False), two_way=s.get("two_way", True), ignore_parent=s.get("ignore_parent", True), reversible=s.get("reversible", True), empty_first=s.get("empty_first", False)),
     "MergeDuplicateStatistics": lambda s: MergeDuplicateStatistics(_mask(s), s.get("lazy", False), two_way=s.get("two_way", True), ignore_parent=s.get("ignore_parent", True), reversible=s.get("reversible", True), empty_first=s.get("empty_first", False)),
@@ -1052,6 +1101,7 @@ _STRATS = {
     "Rename": lambda s: Rename(tuple(s["perm"]), _mask(s), s.get("lazy", False), s.get("two_way", False), s.get("ignore_parent", False), s.get("empty_first", False)),
     "LetterPermutation": lambda s: LetterPermutation(tuple(s["perm"]), _mask(s), s.get("lazy", False)),
     "WordAtom": lambda s: WordAtom(),
+    "AtomTwinFactory": lambda s: AtomTwinFactory(s.get("foreign", True), s.get("foreign_first", False)),
     "AtomStrategy": lambda s: AtomStrategy(),
     "FiatVerified": lambda s: FiatVerified(
         [_tup(k) for k in s.get("keys", [])], s.get("salt", 0), s.get("pct", 0), s.get("pack_spec"), s.get("ignore_parent", False)
@@ -1107,6 +1157,8 @@ def pack_strategies(pack):
         if isinstance(st, ExpandFactory):
             res.extend(st.strategies())
             res.append(Expand(1, mask=st.mask))
+        elif isinstance(st, AtomTwinFactory):
+            res.extend(st.strategies())
         else:
             res.append(st)
     return res
